@@ -206,6 +206,72 @@ func vh_C14_ManyCallers() {
 	vfReach("end")
 }
 
+// callers whose requests are ALREADY waiting when the target is started with StartWithVal (0..6 of them - more than the
+// request buffer holds): StartWithVal returns, its value reaches the FIRST YieldRef, and every waiting request is then
+// taken once and answered to its own caller with the value of the YieldRef that took it
+func vh_C14_StartWithValAfterQueued() {
+	callers := vfRange("callers", 0, 6)
+	v := vfInt("start-value")
+	var target *CorDef[int]
+	cs := make([]*CorDef[int], callers)
+	xs, ys := make([]int, callers), make([]int, callers+1)
+	for c := range xs {
+		xs[c] = vfInt("x")
+		vfAssume(xs[c] != v)
+		for d := 0; d < c; d++ {
+			vfAssume(xs[c] != xs[d])
+		}
+	}
+	for k := range ys {
+		ys[k] = vfInt("y")
+	}
+	var seen []int
+	got := make([]int, callers)
+	answered := make([]bool, callers)
+	target = CorNewGenerics[int](func() {
+		for k := 0; k < callers+1; k++ {
+			seen = append(seen, target.YieldRef(ys[k]))
+		}
+	})
+	for c := 0; c < callers; c++ {
+		c := c
+		cs[c] = CorNewGenerics[int](func() {
+			got[c] = cs[c].YieldFrom(target, xs[c])
+			answered[c] = true
+		})
+	}
+	returned := false
+	if !vfNoPanic("nopanic", func() {
+		for c := 0; c < callers; c++ {
+			cs[c].Start()
+		}
+		vfQuiesce() // the requests wait on the unstarted target
+		go func() { target.StartWithVal(v); returned = true }()
+		vfQuiesce()
+	}) {
+		return
+	}
+	vfAssert("startwithval-returns", returned)
+	vfAssert("started", target.IsStarted())
+	vfAssert("every-request-taken-once", len(seen) == callers+1)
+	if len(seen) > 0 {
+		vfAssert("startwithval-feeds-first-yieldref", seen[0] == v)
+	}
+	for c := 0; c < callers; c++ {
+		vfAssert("caller-answered", answered[c])
+		taken, routed := false, false
+		for k, x := range seen {
+			taken = vfOr(taken, x == xs[c])
+			routed = vfOr(routed, vfAnd(x == xs[c], got[c] == ys[k]))
+		}
+		vfAssert("request-not-lost", taken)
+		if answered[c] {
+			vfAssert("own-answer-routed-to-its-caller", routed)
+		}
+	}
+	vfReach("end")
+}
+
 // the instance-method constructors Cor.New (interface{} coroutine) and NewAndStart pair requests the same way
 func vh_C14_UtilInstance() {
 	var target *CorDef[interface{}]
